@@ -143,10 +143,10 @@ LevelsOK(t) ==
             /\ o.pcous = At(lv.objs, k - 1)
             /\ o.ncous = At(lv.objs, k + 1)
             /\ o.type = lv.type
-            \* same type refined by cache depth/type and group depth on one level
+            \* same type refined by cache depth and group depth on one level (a level may mix unified and data caches)
             /\ k > 1 => LET q == O(t, lv.objs[k - 1]) IN
                  /\ o.attr.k = q.attr.k
-                 /\ o.type \in CacheTypes => o.attr.depth = q.attr.depth /\ o.attr.ctype = q.attr.ctype
+                 /\ o.type \in CacheTypes => o.attr.depth = q.attr.depth
                  /\ o.type = GROUP => o.attr.depth = q.attr.depth
        \* tree order: a normal level lists its objects in depth-first order
        /\ lv.depth >= 0 => \A k \in 2..Len(lv.objs) : lv.objs[k - 1] < lv.objs[k]
